@@ -107,7 +107,11 @@ type txnState struct {
 	readKeys map[string]string // keys read from the snapshot -> "get" | "scan"
 	observed map[string]bool   // keys whose snapshot state (live value or absence) a read depended on
 	nOps     int
-	bg       chan error
+	// untracked: when the transaction began, the oracle's read watermark had already
+	// passed its read ts, so the watermark cannot hold conflict-history pruning back for
+	// it (used only to classify a missed conflict, never to judge)
+	untracked bool
+	bg        chan error
 	bgStart  uint64
 }
 
@@ -292,6 +296,9 @@ func (x *Exec) txnStep(ti int, op string) (err error) {
 		t.t = x.db().NewTransaction(true)
 		t.open = true
 		t.readTs = t.t.ReadTs()
+		if _, readDone, _, _, _ := x.db().VerifOracleInfo(); readDone >= t.readTs {
+			t.untracked = true
+		}
 		if t.readTs < x.Env.LastVersion {
 			x.addf("visible", "begin-readts-behind-acked-commit", "transaction %d began with read ts %d after a commit at version %d had been acknowledged", ti, t.readTs, x.Env.LastVersion)
 		}
@@ -419,14 +426,10 @@ func (x *Exec) expect(t *txnState, k string) (w *wr, fromPending bool) {
 }
 
 func (x *Exec) ctx(t *txnState) string {
-	s := ""
-	if t.readTs == 0 {
-		s += " readts0"
-	}
 	if x.maint {
-		s += " maint"
+		return " maint"
 	}
-	return s
+	return ""
 }
 
 func (x *Exec) doGet(ti int, t *txnState, k string) {
@@ -642,7 +645,11 @@ func (x *Exec) finishCommit(ti int, t *txnState, err error) {
 			if strings.HasPrefix(overwritten[0], "scan") {
 				how = "scan"
 			}
-			x.addf("conflict", "missed-conflict read="+how+x.ctx(t), "transaction %d (read ts %d) committed although %v was overwritten by a commit after its read ts", ti, t.readTs, overwritten)
+			untr := ""
+			if t.untracked {
+				untr = " reader-untracked-by-read-watermark"
+			}
+			x.addf("conflict", "missed-conflict read="+how+untr+x.ctx(t), "transaction %d (read ts %d) committed although %v was overwritten by a commit after its read ts", ti, t.readTs, overwritten)
 		}
 		v := x.scanAll("commit-ok", t, ti)
 		if v == 0 {
